@@ -715,20 +715,27 @@ class Exec:
         raise Unsupported("unary op")
 
     def ev_BoolOp(self, e, fr):
-        # Only the *truth* of a boolean operation is modelled (its use as a value selector,
-        # `x or default`, is outside the subset and caught by the CPython cross-check).
+        # Python semantics: `a or b` / `a and b` yield one of the OPERANDS.  While the truth of the leading operands
+        # is concrete the selected operand itself is returned (`x or default`); once an operand's truth is symbolic
+        # only the truth of the whole operation is modelled (enough for conditions).
         # Short-circuit: right operands are evaluated under the left operands' guard.
         is_and = isinstance(e.op, ast.And)
         acc = []
         f = fr
-        for x in e.values:
-            v = self.truth(self.eval(x, f), f)
+        last = len(e.values) - 1
+        for n, x in enumerate(e.values):
+            val = self.eval(x, f)
+            v = self.truth(val, f)
             if isinstance(v, bool):
                 if is_and and not v:
-                    return False
+                    return val if not acc else False
                 if not is_and and v:
-                    return True
+                    return val if not acc else True
+                if n == last and not acc:
+                    return val
                 continue
+            if n == last and not acc:
+                return val
             acc.append(v)
             f = f.clone()
             f.heap = fr.heap
